@@ -167,6 +167,17 @@ def const_value(v):
     return None
 
 
+def const_or_some(v):
+    """const_value of v, looking through a `Some(..)` / `Ok(..)` wrapper (comparisons such as `opt == Some("x")`)"""
+    c = const_value(v)
+    if c is not None:
+        return c
+    p = peel(v)
+    if p.kind == "agg" and p.d["agg"].get("variant") in ("Some", "Ok") and len(p.kids) == 1:
+        return const_value(p.kids[0])
+    return None
+
+
 def is_call_to(v, *names, name=None, trait=None, self_adt=None):
     if v.kind != "call":
         return False
@@ -480,6 +491,9 @@ class FnVals:
                 return collect(n.kids[0], depth + 1)
             if n.kind == "call" and n.d["term"].get("name") == "branch" and n.d["term"].get("trait") == "std::ops::Try" and n.kids:
                 return collect(n.kids[0], depth + 1)
+            if n.kind == "call" and n.d["term"].get("name") in ("map_err", "or_else") and n.d["term"].get("self_adt") == "std::result::Result" and n.kids \
+                    and variant in ("Ok", "Continue"):
+                return collect(n.kids[0], depth + 1)  # the success side passes through an error-side adaptor unchanged
             if n.kind == "phi":
                 for k in n.kids:
                     collect(k, depth + 1)
